@@ -1,0 +1,78 @@
+//go:build verif
+
+package proxy
+
+import (
+	"net"
+
+	"go.minekube.com/gate/pkg/edition/java/netmc"
+	"go.minekube.com/gate/pkg/edition/java/profile"
+	"go.minekube.com/gate/pkg/edition/java/proto/packet"
+)
+
+// Verification hooks for keep-alive forwarding (property C18).
+// Add-only, compiled only with -tags verif; no existing behaviour is changed.
+
+// VerifC18Player wraps an unexported connectedPlayer built by VerifC18NewPlayer.
+type VerifC18Player struct{ p *connectedPlayer }
+
+// VerifC18Backend wraps an unexported serverConnection built by NewBackend.
+type VerifC18Backend struct{ sc *serverConnection }
+
+// VerifC18NewPlayer builds a connectedPlayer over conn, using the same sessionHandlerDeps as
+// Proxy.HandleConn.
+func VerifC18NewPlayer(px *Proxy, conn netmc.MinecraftConn, prof *profile.GameProfile, vhost net.Addr) *VerifC18Player {
+	deps := &sessionHandlerDeps{
+		proxy:          px,
+		registrar:      px,
+		configProvider: px,
+		eventMgr:       px.event,
+		authenticator:  px.authenticator,
+		loginsQuota:    px.loginsQuota,
+	}
+	return &VerifC18Player{p: newConnectedPlayer(conn, prof, vhost, packet.LoginHandshakeIntent, false, nil, deps)}
+}
+
+// NewBackend builds a serverConnection (newServerConnection) to rs for this player whose
+// backend connection is backendConn (nil = not connected).
+func (v *VerifC18Player) NewBackend(rs RegisteredServer, backendConn netmc.MinecraftConn) *VerifC18Backend {
+	s, ok := rs.(*registeredServer)
+	if !ok {
+		return nil
+	}
+	sc := newServerConnection(s, nil, v.p)
+	if backendConn != nil {
+		sc.mu.Lock()
+		sc.connection = backendConn
+		sc.mu.Unlock()
+	}
+	return &VerifC18Backend{sc: sc}
+}
+
+// SetCurrent makes b the player's connected server (b == nil is ignored).
+func (v *VerifC18Player) SetCurrent(b *VerifC18Backend) {
+	if b != nil {
+		v.p.setConnectedServer(b.sc)
+	}
+}
+
+// SetInFlight sets (b != nil) or clears (b == nil) the player's in-flight connection.
+func (v *VerifC18Player) SetInFlight(b *VerifC18Backend) {
+	if b == nil {
+		v.p.setInFlightConnection(nil)
+		return
+	}
+	v.p.setInFlightConnection(b.sc)
+}
+
+// BackendSentKeepAlive calls recordBackendKeepAlive, which every backend session handler
+// (play, config, transition) calls on a KeepAlive from the backend.
+func (b *VerifC18Backend) BackendSentKeepAlive(id int64) {
+	recordBackendKeepAlive(b.sc, &packet.KeepAlive{RandomID: id})
+}
+
+// ClientRepliedKeepAlive calls forwardKeepAlive, which the client play and config session
+// handlers call on a KeepAlive from the client.
+func (v *VerifC18Player) ClientRepliedKeepAlive(id int64) {
+	forwardKeepAlive(&packet.KeepAlive{RandomID: id}, v.p)
+}
